@@ -46,7 +46,8 @@ def creds_reps(sys, dom, proj, roles, spelling):
     if proj:
         kw['project_id'] = 'p1'
     reps = []
-    ctx = context.RequestContext(**{k: v for k, v in kw.items() if k != 'user_id'}, user_id='u')
+    # every context carries the same request id: two requests are told apart by what they hold, not by an id
+    ctx = context.RequestContext(**{k: v for k, v in kw.items() if k != 'user_id'}, user_id='u', request_id='req-00000000-0000-0000-0000-000000000001')
     pv = ctx.to_policy_values()
     reps.append(('context', dict(pv), ctx))
     reps.append(('policy_values', dict(pv), pv))
@@ -115,6 +116,16 @@ def run(ctx):
                                                             want='c08', creds_obj=obj, extra={'_rep': rep, '_scopes': list(scopes)},
                                                             enforcer=enforcer)
                                         cases.append(c)
+    # scope types come from the registered default also when that default was merged with a
+    # deprecated predecessor (loader traces carry the scope probe "scopeblk" at every load)
+    from checks import loader_common as lc
+    for variant, en in (('renamed', False), ('same', False), ('split', False), ('renamed', True)):
+        hs = [[('load', False)], [('write', 'main', 'old'), ('load', False), ('load', True)], [('write', 'd1/a', 'alias'), ('load', False)],
+              [('write', 'main', 'new'), ('load', False), ('delete', 'main'), ('load', False)]]
+        traces = [lc.run_history(rng, variant, en, h) for h in hs]
+        for idx, why, step in lc.judge_traces(ctx, variant, en, traces):
+            ctx.violation('scope-gate:after-loading:%s' % why, 'after loading policy files the scope gate of a registered policy is not the one its default declares: ' + why,
+                          {'variant': variant, 'enforce_new_defaults': en, 'trace': traces[idx][:step]})
     bad = ec.judge(ctx, cases)
     for c in bad:
         key = 'scope-gate:' + ('by-' + c['call']['by'])
